@@ -10,6 +10,7 @@ class HistoricallyTimedOperation(AbstractDenseTimeOnlineOperation):
         self.max = float("inf")
         self.begin = begin
         self.end = end
+        self.last_in = []
 
     def reset(self):
         pass
@@ -22,6 +23,12 @@ class HistoricallyTimedOperation(AbstractDenseTimeOnlineOperation):
 
         begin = self.begin
         end = self.end
+
+        # the first new sample may repeat the frontier sample of the previous update
+        if sample and self.last_in and sample[0][0] == self.last_in[0]:
+            sample = sample[1:]
+        if sample:
+            self.last_in = sample[-1]
 
         if sample:
             # update when the residuals start in this iteration
